@@ -32,6 +32,9 @@ LAYERS = {
     'values[prod].eu.yaml': {'region': 'eu'},
     'star*name.json': {'s': 1},
     'q?.toml': {'q': 1},
+    '-svc.yaml': {'dash': 1},
+    '-svc.prod.yaml': {'prod': True},
+    '--opt.json': {'looks': 'like a flag'},
 }
 BAD = {
     'bad-required.yaml': {'a': '$required'},
@@ -44,7 +47,8 @@ GOOD_ARGS = ['svc.yaml', 'svc.test.toml', 'svc.test.eu.json', 'db.json', 'plain.
              'db.yaml', 'db.toml', 'plain.json', './svc.yaml', 'sub/../svc.test.toml', 'svc.test.eu.yaml', 'svc.test.eu.toml',
              'sub/svc.yaml', 'dir/svc.yaml', 'sub/svc.json', 'dir/db.json', 'sub/db.json', 'dir/svc.toml',
              'prod.yaml', 'prod.json', 'lnk.toml', 'lnk.yaml', 'sub/dblink.json', 'sub/dblink.yaml',
-             'values[prod].yaml', 'values[prod].eu.yaml', 'values[prod].eu.json', 'values[prod].json', 'star*name.json', 'star*name.yaml', 'q?.toml', 'q?.json']
+             'values[prod].yaml', 'values[prod].eu.yaml', 'values[prod].eu.json', 'values[prod].json', 'star*name.json', 'star*name.yaml', 'q?.toml', 'q?.json',
+             '-svc.yaml', '-svc.prod.yaml', '-svc.prod.json', '-svc.json', '--opt.json', '--opt.yaml', './-svc.yaml']
 BAD_ARGS = ['bad-required.yaml', 'bad-required.json', 'orphan.child.yaml', 'bad-parent.yaml', 'bad-parent.toml', 'syntax.json', 'syntax.yaml']
 
 
@@ -147,7 +151,7 @@ def check_case(ctx, case):
         for a in argv:
             if resolvable(d, a):
                 nres += 1
-                r = cli([ctx.bin('bkl'), a], cwd=d)
+                r = cli([ctx.bin('bkl'), '--', a], cwd=d)
                 res.execs += 1
                 if r.rc != 0:
                     any_fail = True
